@@ -175,11 +175,26 @@ def run_history(case, d, want_regen=True):
         k = op['op']
         extra = {}
         if k in ('append', 'iterappend'):
-            specs = op['items']
-            imgs = [item_image(s, dt) for s in specs]
-            fs = op.get('fsize')       # {'item': i, 'file': 'values'|'indices', 'k': bytes}
             vlen = sum(x.shape[0] for x in ref)
             imax = int(np.iinfo(np.dtype(case['indextype'])).max)
+
+            def resolve(s, sofar):
+                # 'fillto': as many rows as bring the total number of value rows to imax + delta
+                if s.get('kind') != 'fillto':
+                    return s
+                nrows = imax + s['delta'] - sofar
+                if not 0 <= nrows <= 1000:
+                    nrows = 1
+                z = (np.arange(nrows * int(np.prod(atom, dtype=int))) % 7).astype(dt).reshape((nrows,) + atom)
+                return dict(kind='nd', dtype=z.dtype.str, shape=list(z.shape), hex=z.tobytes().hex(), layout='C')
+            specs, sofar = [], vlen
+            for s in op['items']:
+                s2 = resolve(s, sofar)
+                specs.append(s2)
+                if s2.get('kind') == 'nd' and list(s2['shape'][1:]) == list(atom):
+                    sofar += s2['shape'][0]
+            imgs = [item_image(s, dt) for s in specs]
+            fs = op.get('fsize')       # {'item': i, 'file': 'values'|'indices', 'k': bytes}
             newref = list(ref)
             allgood = True
             for i, im in enumerate(imgs):
